@@ -181,10 +181,10 @@ class AdvancedHTMLFormatter(HTMLParser):
         if self.inPreformatted == 0:
             newTag._indent = self._getIndent()
 
-        if tagName in PREFORMATTED_TAGS:
-            self.inPreformatted += 1
-
         if isSelfClosing is False:
+            if tagName in PREFORMATTED_TAGS:
+                self.inPreformatted += 1
+
             inTag.append(newTag)
             if tagName != INVISIBLE_ROOT_TAG:
                 self.currentIndentLevel += 1
@@ -412,10 +412,10 @@ def handle_starttag_slim(self, tagName, attributeList, isSelfClosing=False):
     if self.inPreformatted == 0:
         newTag._indent = self._getIndent()
 
-    if tagName in PREFORMATTED_TAGS:
-        self.inPreformatted += 1
-
     if isSelfClosing is False:
+        if tagName in PREFORMATTED_TAGS:
+            self.inPreformatted += 1
+
         inTag.append(newTag)
         if tagName != INVISIBLE_ROOT_TAG:
             self.currentIndentLevel += 1
